@@ -34,6 +34,9 @@ func MX() []*descriptorpb.FileDescriptorProto {
 	// --- second file of package mx
 	f2 := NewFile("mx/mx2.proto", "mx", GenRoot+"mx")
 	color := f2.Enum("Color", "COLOR_ZERO", 0, "RED", 1, "BLUE", 5, "NEGATIVE", -3)
+	ce := f2.P.EnumType[len(f2.P.EnumType)-1]
+	ce.ReservedRange = []*descriptorpb.EnumDescriptorProto_EnumReservedRange{{Start: proto.Int32(2), End: proto.Int32(4)}, {Start: proto.Int32(-10), End: proto.Int32(-10)}}
+	ce.ReservedName = []string{"GREEN"}
 	sec := f2.Msg("Sec")
 	sec.Field("z", 1, S(Sint32))
 	sec.Rep("zs", 2, S(Sint64))
@@ -57,6 +60,14 @@ func MX() []*descriptorpb.FileDescriptorProto {
 	chain := f.Msg("Chain") // recursion with branching factor 1
 	chain.Field("next", 1, M(chain.Full()))
 	chain.Field("v", 2, S(Int32))
+
+	chainl := f.Msg("ChainL") // the same, carrying a list and a map at every level
+	chainl.Field("next", 1, M(chainl.Full()))
+	chainl.Rep("xs", 2, S(Int32))
+	chainl.Rep("ss", 3, S(String))
+	// reserved numbers and names are part of the schema the generated package must register
+	chainl.P.ReservedRange = []*descriptorpb.DescriptorProto_ReservedRange{{Start: proto.Int32(10), End: proto.Int32(20)}, {Start: proto.Int32(100), End: proto.Int32(101)}}
+	chainl.P.ReservedName = []string{"old_name", "older_name"}
 
 	sing := f.Msg("Sing")
 	proto.SetExtension(ensureMsgOpts(sing.P), cosmos_proto.E_ImplementsInterface, []string{"verif.Iface"})
